@@ -72,6 +72,15 @@ func Gzip(b []byte) []byte {
 	return buf.Bytes()
 }
 
+// GzipBest compresses with the real matcher (for payloads that must inflate enormously).
+func GzipBest(b []byte) []byte {
+	var buf bytes.Buffer
+	w, _ := gzip.NewWriterLevel(&buf, gzip.BestCompression)
+	_, _ = w.Write(b)
+	_ = w.Close()
+	return buf.Bytes()
+}
+
 func Gunzip(b []byte) ([]byte, error) {
 	r, err := gzip.NewReader(bytes.NewReader(b))
 	if err != nil {
